@@ -111,6 +111,23 @@ Definition step (w : world) (o : op) : world * list obs :=
     ({| w_enc := e'; w_dec := w_dec w0; w_pk := w_pk w0; w_ob := w_ob w0; w_frames := fs; w_st := w_st w0; w_st2 := w_st2 w0 |},
      (if c =? 42 then [] else map (fun f => ob T_F [] [f]) fs) ++ [ob T_Q [zlen fs; e_seq e'] []])
   else if c =? 11 then (setdec w (n 0%nat) [], [])
+  else if c =? 51 then
+    (* setData called with the object's OWN data pointer and a length not above the current data length (in-place truncation) *)
+    match aget (n 0%nat) (w_ob w) with
+    | Some (k, p) =>
+      if (k =? 49) || (k =? 50) then (w, []) else
+      let avail := zlen (pl_data p) - hdr_size k in
+      if avail <? 0 then (w, []) else
+      let m := Z.min (n 1%nat) avail in
+      (setob w (n 0%nat) k {| pl_type := pl_type p; pl_data := set_data k (pl_data p) (take m (drop (hdr_size k) (pl_data p))) |}, [])
+    | None => (w, [])
+    end
+  else if c =? 52 then
+    (* a typed payload object constructed over ANY raw bytes (no validity check): it may hold fewer bytes than its header *)
+    (setob w (n 0%nat) (n 1%nat) (mk_payload (type_of_kind (n 1%nat)) (b 0%nat)), [])
+  else if c =? 53 then
+    (* the tracker is fed its own stored packet of (device, interface) again: nothing changes *)
+    (w, [])
   else if c =? 49 then
     (* Status copy: the other tracker object becomes a copy of the selected one *)
     ({| w_enc := w_enc w; w_dec := w_dec w; w_pk := w_pk w; w_ob := w_ob w; w_frames := w_frames w; w_st := w_st w; w_st2 := w_st w |}, [])
